@@ -8,7 +8,7 @@
  * behaviour file (tokens separated by one space, strings %XX-escaped):
  *   reset <synth|xml|fsroot|cpuid> <arg> <NA> lo0 hi0 lo1 hi1 ...     (synth: '_' stands for ' ')
  *   register <n|-1> a1 .. an <forced_efficiency> <flags> <ninfos|-1> name1 value1 ...   (-1: NULL pointer)
- *   restrict <n> a1 .. an <flags>
+ *   restrict <n> a1 .. an <flags>      the set is the union of the atoms (a cpuset, or a nodeset when flags has BYNODESET)
  *   dup <0|1>            0: continue on the copy and destroy the original, 1: destroy the copy
  *   xml <0|1>            export to a buffer (1: v2 format), load it in a new topology, continue there
  *   refresh              hwloc_topology_refresh()
@@ -85,6 +85,12 @@ static void out_state(hwloc_topology_t t) {
   int nr, i, r, eff, first; struct hwloc_infos_s *infosp; hwloc_bitmap_t set = hwloc_bitmap_alloc(), q = hwloc_bitmap_alloc();
   out("{\"topo\":"); out_set(hwloc_topology_get_topology_cpuset(t));
   out(",\"allowed\":"); out_set(hwloc_topology_get_allowed_cpuset(t));
+  /* the NUMA nodes (OS index, local cpuset) and the allowed nodeset: what a restrict by nodeset / with REMOVE_* flags is about */
+  { hwloc_obj_t n = NULL; int k = 0;
+    out(",\"nodes\":[");
+    while ((n = hwloc_get_next_obj_by_type(t, HWLOC_OBJ_NUMANODE, n)) != NULL) { out("%s[%d,", k++ ? "," : "", (int)n->os_index); out_set(n->cpuset); out("]"); }
+    out("],\"anodes\":"); out_set(hwloc_topology_get_allowed_nodeset(t));
+  }
   errno = 0; nr = hwloc_cpukinds_get_nr(t, 0);
   out(",\"nr\":"); out_rc(nr);
   errno = 0; r = hwloc_cpukinds_get_nr(t, 1); out(",\"nr_bf\":"); out_rc(r);
